@@ -103,7 +103,7 @@ def step (st : St) (toks : List String) : St × String :=
       (st, textToHex (frame le (f.run ts big) ++ frame le (f.run ts st.cur)))
     | _, _, _, _ => (st, "bad-op")
   -- one log call, several outputs; the clock reading of each output is given (text, rendered as is)
-  | "OUTS" :: outs =>
+  | "OUTS" :: outs | "OUTSW" :: outs =>     -- OUTSW: the second output is an additional writer (`{Sec,_Default}`)
     let parsed := outs.foldr (fun o acc =>
       match acc, parseOut o with
       | some l, some p => some (p :: l)
